@@ -22,7 +22,8 @@ META = {
                    'form in the cotangent atoms g. Oracle: J^T g read off the coefficient table of the SAME symbolic forward run (the true VJP of the function that '
                    'was computed). Query per leaf element: exists g in [-1,1]^m with |grad_i(g) - (J^T g)_i| > tau. A leaf that requires grad, has a non-zero column '
                    'in J and receives no gradient is a violation.',
-    'bounds': {'quick': {'wavelets': WAVES_Q, 'modes': D.MODES, '1-D N': 'L+1, 2L, 2L+1 and one long size (interior elements) per (wavelet, J)', '2-D': '(6,6),(5,8),(9,7) + one 12x12',
+    'bounds': {'added_families': ['LeGall 5/3 taps as a tuple (odd length), modes zero and periodization', 'per-axis pairs db2|db3 (fwd, J=2, 12x12), db2|bior1.3 (inv, 8x8)', 'C=2,3 channels for grad subsets [1,0] [1,1] [0,1] [1,0,1]', 'cotangent boxes of radius 1, 2^-30, 2^-60 when the backward selects by magnitude'],
+               'quick': {'wavelets': WAVES_Q, 'modes': D.MODES, '1-D N': 'L+1, 2L, 2L+1 and one long size (interior elements) per (wavelet, J)', '2-D': '(6,6),(5,8),(9,7) + one 12x12',
                          'J': '1,2 (3 on two configs)', 'grad subsets (inverse)': 'all non-empty subsets of (yl, yh_1..yh_J) for J<=2'},
                'thorough': {'wavelets': WAVES_Q + ['db4', 'db6', 'coif1', 'rbio1.3', 'bior1.5'], '1-D N': '4..2L+2', 'J': '1..3', 'subsets': 'all for J<=3'}},
     'outside': 'sizes beyond the lists; float rounding; second-order gradients; the autograd engine itself is modelled (tape at Function granularity), not executed '
